@@ -155,7 +155,11 @@ class IoSim(Engine):
                 if draw(st.integers(0, 9)) == 0:
                     val = {'k': 'odict', 'v': [['k', val], ['z', val]]}
                 fn = draw(st.sampled_from(['yaml', 'json', 'json']))
-                pre = draw(st.sampled_from([None, None, 'short', 'longer']))
+                # content the target file already has: unrelated (short / longer), or an
+                # earlier version of the same text (the file is being re-saved): the text
+                # followed by more, a prefix of it, the text itself, same length but different
+                pre = draw(st.sampled_from([None, None, 'short', 'longer', 'extends', 'extends',
+                                            'prefix', 'same', 'samelen']))
                 return {'mode': 'dump', 'spec': spec, 'order': order, 'value': val,
                         'fn': fn, 'knobs': knobs, 'chunks': chunks, 'preexisting': pre}
         return plan()
@@ -419,12 +423,28 @@ class IoSim(Engine):
         mount = self.mount
         knobs = mount.knobs
         stats.count('cases_dump')
+        stats.count('cases_dump_preexisting_' + str(plan['preexisting']))
         violations = []
         seen = set()
         options = [{}]
         if json_:
             options = [{'indent': i, 'ensure_ascii': a} for i in INDENTS for a in (True, False)]
-        pre = {'short': b'x', 'longer': b'PREEXISTING ' * 2000, None: None}[plan['preexisting']]
+        pre_kind = plan['preexisting']
+
+        def pre_content(T):
+            if pre_kind is None:
+                return None
+            if pre_kind == 'short':
+                return b'x'
+            if pre_kind == 'longer' or T is None:
+                return b'PREEXISTING ' * 2000
+            if pre_kind == 'extends':
+                return (T + ('verbose: true\n' if not json_ else '0')).encode('utf-8')
+            if pre_kind == 'prefix':
+                return T[:len(T) // 2].encode('utf-8')
+            if pre_kind == 'same':
+                return T.encode('utf-8')
+            return (T[:-2] + 'zz').encode('utf-8')   # samelen
         first = True
         ops.call(lambda: fs(obj))       # warm caches before measuring the cost
         rc = max(1, ops.call_cost(lambda: fs(obj)))
@@ -456,6 +476,7 @@ class IoSim(Engine):
                 closer = None
                 if kind in ('strpath', 'path'):
                     mount.remove('out.txt')
+                    pre = pre_content(T)
                     if pre is not None:
                         mount.put('out.txt', pre)
                     p = mount.path('out.txt')
